@@ -32,10 +32,13 @@ Variable pl : list pay.
 Hypothesis H : Rep t g pl.
 Variable tables : list (list N).
 
-Theorem view_t2_eq its1 ts : Desc g pl (root_tree_t2 its1 ts) -> forallb item_okb its1 = true -> forallb titem_okb ts = true ->
+Theorem view_t2_eq its1 ts hdr1 hdr2 : Desc g pl (root_tree_t2 its1 ts) -> forallb item_okb its1 = true -> forallb titem_okb ts = true ->
+  tables = [hdr1 ++ enc_items its1; hdr2 ++ enc_titems ts] -> lenN hdr1 = aml_sizeofSDTHeader -> lenN hdr2 = aml_sizeofSDTHeader ->
   view t tables = view_t2 its1 ts.
 Proof.
-  intros HD Hok1 Hok. unfold view. set (known := [] :: collect_known t (pool_fuel t) 0 []).
+  intros HD Hok1 Hok Htb Hh1 Hh2.
+  assert (Hn1 : nth_error tables (N.to_nat 0) = Some (hdr1 ++ enc_items its1)) by (rewrite Htb; reflexivity).
+  assert (Hn2 : nth_error tables (N.to_nat 1) = Some (hdr2 ++ enc_titems ts ++ [])) by (rewrite Htb, app_nil_r; reflexivity). unfold view. set (known := [] :: collect_known t (pool_fuel t) 0 []).
   unfold pool_fuel at 1. rewrite walk_S.
   unfold root_tree_t2, root_treeG in HD. cbv zeta in HD. set (b2 := 6 + N.of_nat (iszs its1)) in *.
   destruct (Desc_inv _ _ _ _ _ HD) as (P0 & K0 & HDk). apply Forall_app in HDk. destruct HDk as [HDl HD2].
@@ -56,12 +59,19 @@ Proof.
     destruct (dname_num d Hd) as (En & Ez).
     apply (walkF_scope t tables _ known [] es [] d co); [exact Hco|rewrite (pay_op _ _ Epco); reflexivity|rewrite (pay_name _ _ Epco); exact Ez|].
     rewrite walk_S, Hco, Hkco, Kd, (pay_name _ _ Epco). cbn [dpay y_name app]. rewrite En.
-    rewrite (moved_fold t g pl H tables 2 1 (length (t_pool t)) known d ts [] [] _ _ HDm Hok ltac:(unfold b2; lia) Hlen). reflexivity. }
+    assert (HDm' : Forall (Desc g pl) (moved 2 1 b2 (lenN hdr2) ts d)) by (rewrite Hh2; exact HDm).
+    pose proof (moved_fold t g pl H tables 2 1 (length (t_pool t)) known d _ Hn2 ts [] [] _ hdr2 [] eq_refl HDm' Hok ltac:(unfold b2; lia) Hlen) as Em.
+    rewrite Hh2 in Em. rewrite Em. reflexivity. }
   cbn [D0' map ridx fold_left].
   rewrite (Hleaf 1 []) by lia. rewrite (Hleaf 2) by lia. rewrite (Hleaf 3) by lia. rewrite (Hleaf 4) by lia. rewrite (Hleaf 5) by lia.
-  rewrite (vspec_all t g pl H tables its1 1 0 (S (length (t_pool t))) known [] _ [] _ _ HDK Hok1
-             (lay2_fuel g pl 1 0 its1 6 aml_sizeofSDTHeader (S (length (t_pool t))) HDK ltac:(lia) ltac:(lia))).
-  rewrite (keep_fold t g pl H tables 2 1 (S (length (t_pool t))) known ts _ [] _ _ HDkeep Hok ltac:(unfold b2; lia) ltac:(lia)).
+  assert (HDK' : Forall (Desc g pl) (lay2 1 0 6 (lenN hdr1) its1)) by (rewrite Hh1; exact HDK).
+  pose proof (vspec_all t g pl H tables its1 1 0 (S (length (t_pool t))) known [] (([] ++ vmoved ts 1) ++ vmoved ts 2 ++ vmoved ts 3 ++ vmoved ts 4 ++ vmoved ts 5) [] 6 (lenN hdr1) _ hdr1 [] Hn1 ltac:(rewrite app_nil_r; reflexivity) eq_refl HDK' Hok1
+             (lay2_fuel g pl 1 0 its1 6 (lenN hdr1) (S (length (t_pool t))) HDK' ltac:(lia) ltac:(lia))) as E1.
+  rewrite Hh1 in E1. rewrite <- !app_assoc in E1 |- *. cbn [app] in E1 |- *. rewrite E1. clear E1.
+  assert (HDkeep' : Forall (Desc g pl) (keep 2 1 b2 (lenN hdr2) ts)) by (rewrite Hh2; exact HDkeep).
+  match goal with |- context [fold_left _ (map ridx (keep _ _ _ _ _)) (?es, [])] =>
+    pose proof (keep_fold t g pl H tables 2 1 (S (length (t_pool t))) known _ Hn2 ts es [] _ hdr2 [] eq_refl HDkeep' Hok ltac:(unfold b2; lia) ltac:(lia)) as E2 end.
+  rewrite Hh2 in E2. rewrite E2. clear E2.
   cbn [app anon map]. rewrite app_nil_r. unfold view_t2. rewrite <- !app_assoc. reflexivity.
 Qed.
 End ViewT2.
